@@ -1,10 +1,36 @@
 CHECK = {
   'level': 'exploration',
-  'technique': 'tbd',
-  'level_text': 'tbd',
-  'level_note': 'tbd',
-  'rule': 'tbd',
-  'parts': [{'bin': 'c20_matrix', 'flavour': 'plain', 'deadline': {'quick': 600, 'thorough': 3000}}],
-  'bounds': {'quick': '', 'thorough': ''},
-  'assumptions': [],
+  'technique': 'bounded exhaustive enumeration of complete input grids on the real templates (Matrix4_/Matrix3_/Matrix_/Quaternion_ instantiated over '
+               'a symbolic-quotient scalar, prime fields and float/double) against an integer / long-double reference; ASan oracle for the heap-based solver',
+  'level_text': 'Exact clauses are decided, not sampled: inverse() is run with the single quotient 1/d kept symbolic, so the adjugate and the determinant '
+                'are observed as polynomials on ALL 3^16 matrices over {-1,0,1} (3x3: all 5^9 over {-2..2}); every entry has degree <= 2 per variable, hence '
+                'agreement on a 3-point grid per variable is agreement as polynomials, and M*adj = det*I / Leibniz are checked for the reference on the same grid. '
+                'solve() runs over GF(p) on every non-singular system of the small fields (every zero pattern = every pivot/row-exchange pattern) and on forced-pivot '
+                'P*U / P*L*U systems up to 12x12 with three pivot preferences. Floating-point clauses and the rotation conversions are run on complete grids '
+                '(integer matrices, 15-degree Euler grid x 24 conventions, integer quaternions, axis-angle incl. 0/180 degrees) and compared as the statement says '
+                '(residual <= c*eps*kappa; rotations compared as rotations).',
+  'level_note': 'Grid argument assumes the computed adjugate/determinant expressions have degree <= 2 in each entry (true for any single-site change of the '
+                'cofactor expressions); the fixed generic points over GF(2^61-1) cover higher degrees as in the property quantifier. Floating-point and rotation '
+                'clauses are bounded-exhaustive over the stated grids only (no small-angle axis-angle cases: conditioning 1/sin(angle/2) is part of the tolerance). '
+                'Trusts g++ long double, libm sinl/cosl, ASan.',
+  'rule': 'c20_matrix: all 3^16 4x4 matrices over {-1,0,1} (symbolic inverse, det, det(A*B_k), float+double inverse residual), all 3x3 over {-1,0,1} and {-2..2}, '
+          'det(AB)=det(A)det(B) for all 3^18 pairs of 3x3 grid matrices, fixed points over GF(2^61-1); '
+          'c20_solve: every nxn system over GF(p) for the listed (p,n), P*U/P*L*U up to 12x12, exact least squares for all integer mxn grids listed, float/double grids and families; '
+          'c20_rot: Euler grid x 24 conventions x {float,double}, each matrix converted to all 24 conventions, quaternion, axis-angle and back, repeated on rotation().matrix(). '
+          'distinct_nontrivial = non-singular matrices / full-rank systems / source rotations; evaluations = asl calls compared with the reference',
+  'parts': [
+    {'bin': 'c20_matrix', 'flavour': 'plain', 'deadline': {'quick': 600, 'thorough': 3000}},
+    {'bin': 'c20_solve', 'flavour': 'asan', 'deadline': {'quick': 600, 'thorough': 3000}},
+    {'bin': 'c20_rot', 'flavour': 'asan', 'deadline': {'quick': 600, 'thorough': 3000}},
+  ],
+  'bounds': {
+    'quick': '4x4: all 43046721 matrices over {-1,0,1}, det(A*B) with 1 fixed B; 3x3: all 19683 + 1953125; 3^18 3x3 pairs; 4e5 GF(2^61-1) points; '
+             'solve: GF(2) n<=4, GF(3) n<=3, GF(5) n<=3, GF(7) n=2 all systems; P*U/P*L*U all permutations n<=6, structured n<=12; lsq integer grids 2x1,3x1,3x2,4x2,5x2; '
+             'float: 3x3 over {-2..2}, 4x4 over {0,1}, families n<=12; rotations: 15 deg grid (24^3) x 24 conventions, quaternions {-3..3}^4, 124 axes x 49 angles',
+    'thorough': 'as quick plus det(A*B) with 3 fixed B, 4e6 GF points; GF(7) 3x3, GF(2) 5x5, GF(3) 4x4 all systems; permutations n<=8; lsq 4x3, 5x3, 4x2 over {-2..2}; '
+                'float 4x4 over {-1,0,1}; rotations: 7.5 deg grid (48^3) x 24 conventions, quaternions {-5..5}^4, 97 angles'},
+  'assumptions': ['g++ -O2; exact side in 64-bit integers / GF(p) with 128-bit products; reference rotations in x87 long double',
+                  'residual bound c = 8 (inverse, solve), kappa_inf from the exact adjugate resp. a long-double full-pivoting inverse; only systems with kappa*eps < 1/64 count as well-conditioned',
+                  'rotation tolerance 16 eps (to matrix/quaternion), 64 eps x conditioning (back to angles / axis-angle); rotations compared by max-abs matrix distance, never by angle triples',
+                  'asl Matrix3::operator* is affine-only by design and is not used; products are formed by the harness'],
  }
